@@ -14,19 +14,19 @@ Definition hx1 (fp : fpr) : string :=
 Definition w_task (m : method) : task :=
   {| t_name := "build"; t_label := None; t_method := m;
      t_sources := [(false, "src/**/*.txt"); (true, "src/ex/*.txt")]; t_generates := [];
-     t_status := []; t_prompt := false; t_dir := ""; t_ncmds := 2; t_outputs := []; t_subguard := None |}.
+     t_status := []; t_prompt := false; t_dir := ""; t_ncmds := 2; t_outputs := []; t_dep := None; t_subguard := None |}.
 Definition w_prompt (m : method) : task :=
   {| t_name := "build"; t_label := None; t_method := m;
      t_sources := [(false, "src/**/*.txt")]; t_generates := [];
-     t_status := []; t_prompt := true; t_dir := ""; t_ncmds := 2; t_outputs := []; t_subguard := None |}.
+     t_status := []; t_prompt := true; t_dir := ""; t_ncmds := 2; t_outputs := []; t_dep := None; t_subguard := None |}.
 Definition w_gen (m : method) : task :=
   {| t_name := "build"; t_label := None; t_method := m;
      t_sources := [(false, "src/*.txt")]; t_generates := [(false, "out.txt")];
-     t_status := []; t_prompt := false; t_dir := ""; t_ncmds := 2; t_outputs := ["out.txt"]; t_subguard := None |}.
+     t_status := []; t_prompt := false; t_dir := ""; t_ncmds := 2; t_outputs := ["out.txt"]; t_dep := None; t_subguard := None |}.
 Definition w_dir : task :=
   {| t_name := "build"; t_label := None; t_method := Checksum;
      t_sources := [(false, "src/*.txt")]; t_generates := [];
-     t_status := []; t_prompt := false; t_dir := "newdir"; t_ncmds := 1; t_outputs := []; t_subguard := None |}.
+     t_status := []; t_prompt := false; t_dir := "newdir"; t_ncmds := 1; t_outputs := []; t_dep := None; t_subguard := None |}.
 
 Definition w_init : state :=
   {| fs := [("src/a.txt", {| f_content := "A0"; f_mtime := 1 |});
@@ -127,7 +127,7 @@ Lemma key_collision : normalize "gen.x" = normalize "gen-x" /\ "gen.x" <> "gen-x
 Proof. split; [reflexivity | discriminate]. Qed.
 Definition w_named (n : string) (m : method) : task :=
   {| t_name := n; t_label := None; t_method := m; t_sources := [(false, "src/*.txt")]; t_generates := [];
-     t_status := []; t_prompt := false; t_dir := ""; t_ncmds := 1; t_outputs := []; t_subguard := None |}.
+     t_status := []; t_prompt := false; t_dir := ""; t_ncmds := 1; t_outputs := []; t_dep := None; t_subguard := None |}.
 Definition h_keys : list event := [(10, Invoke Run 0 AllOk); (12, Invoke Run 1 AllOk)]%N.
 Lemma key_collision_refuted : forall v m, m <> NoMethod ->
   w04 v [w_named "gen.x" m; w_named "gen-x" m] h_keys = false.
@@ -160,7 +160,7 @@ Proof. intro v; by_variant v. Qed.
 Definition w_sub : task :=
   {| t_name := "build"; t_label := None; t_method := Checksum;
      t_sources := [(false, "src/**/*.txt")]; t_generates := [];
-     t_status := []; t_prompt := false; t_dir := ""; t_ncmds := 1; t_outputs := []; t_subguard := Some "guard.flag" |}.
+     t_status := []; t_prompt := false; t_dir := ""; t_ncmds := 1; t_outputs := []; t_dep := None; t_subguard := Some "guard.flag" |}.
 Definition w_init_flag : state := with_fs w_init (fs_set "guard.flag" {| f_content := "g"; f_mtime := 4 |} (fs w_init)).
 Definition h_dryfail : list event :=
   [(10, Invoke Run 0 AllOk); (12, Write "src/a.txt" "A1"); (14, Remove "guard.flag"); (16, Invoke Dry 0 AllOk)]%N.
